@@ -1,5 +1,7 @@
 package socket
 
+import "strconv"
+
 func init() {
 	vxRegister("VX_Smoke_Minus", VX_Smoke_Minus)
 }
@@ -16,5 +18,19 @@ func VX_Smoke_Minus(args []int) {
 	} else {
 		vxCover("minus.err")
 		vxAssert(b < 0 || a < b, "minus error only when b<0 or a<b")
+	}
+}
+
+func init() { vxRegister("VX_Smoke_NumError", VX_Smoke_NumError) }
+
+// VX_Smoke_NumError: the error text of a failed numeric parse of symbolic
+// text can be built (engine self-test for strconv.Quote on symbolic strings).
+func VX_Smoke_NumError(args []int) {
+	s := vxString("s", 2)
+	_, err := strconv.Atoi(s)
+	if err != nil {
+		msg := err.Error()
+		vxAssert(len(msg) > 10, "error text built")
+		vxCover("smoke.numerror")
 	}
 }
